@@ -129,20 +129,27 @@ def getChunksErr (vars : Vars) (chunks : List Bytes) : Bool :=
     | some (.ins v k) => insGetErr k v sub
     | _ => false
 
-/-- `Ctx.replaceQB`: `a[i].b` → `a.<text of i>.b` (only inside counter loops). -/
-def replaceQB (vars : Vars) (path : Bytes) : Option Bytes :=
-  match indexOf 91 path, indexOf 93 path with
-  | some l, some r =>
-    if l < r then
-      let inner := (path.drop (l + 1)).take (r - l - 1)
-      let v := getChunks vars (splitDots inner)
-      match v with
-      | .nil => some (path.take l ++ [46] ++ path.drop (r + 1))
-      | _ => match v.text with
-        | some t => some (path.take l ++ [46] ++ t ++ path.drop (r + 1))
-        | none => none            -- WriteX error: ctx.Err set, nil path
-    else some path
-  | _, _ => some path
+/-- `Ctx.replaceQB` with a budget of bracket pairs: `a[i].b[j]` → `a.<text of i>.b.<text of j>` — every pair of the
+    path, from left to right, each index looked up in the ORIGINAL text (repair: only the first pair used to be
+    substituted, `m[i][j]` reached the inspector as `m.0[j]`). The text that is put in is not scanned again. -/
+def replaceQBF : Nat → Vars → Bytes → Option Bytes
+  | 0, _, path => some path
+  | f+1, vars, path =>
+    match indexOf 91 path, indexOf 93 path with
+    | some l, some r =>
+      if l < r then
+        let inner := (path.drop (l + 1)).take (r - l - 1)
+        let v := getChunks vars (splitDots inner)
+        match v with
+        | .nil => (replaceQBF f vars (path.drop (r + 1))).map (fun tl => path.take l ++ [46] ++ tl)
+        | _ => match v.text with
+          | some t => (replaceQBF f vars (path.drop (r + 1))).map (fun tl => path.take l ++ [46] ++ t ++ tl)
+          | none => none            -- WriteX error: ctx.Err set, nil path
+      else some path
+    | _, _ => some path
+
+/-- `Ctx.replaceQB` (only inside counter loops): a path has fewer bracket pairs than bytes. -/
+def replaceQB (vars : Vars) (path : Bytes) : Option Bytes := replaceQBF path.length vars path
 
 /-- What `Ctx.get` computes: a function of the variables and the square-bracket mode only. -/
 def getCore (vars : Vars) (qb : Bool) (path : Bytes) : Val × Option Err :=
